@@ -41,7 +41,7 @@ class Variables:
                 assert set_expressions, "SET without values in expression(s) is unexpected."
                 eq = set_expressions[0].this
                 name = eq.this.sql()
-                value = eq.args.get("expression").sql()
+                value = eq.args.get("expression").sql(dialect="snowflake")
                 self._set(name, value)
             else:
                 # Haven't been able to produce this in tests yet due to UNSET being parsed as an Alias expression.
@@ -58,12 +58,31 @@ class Variables:
     def _unset(self, name: str) -> None:
         self._variables.pop(name)
 
-    def inline_variables(self, sql: str) -> str:
-        for name, value in self._variables.items():
-            sql = re.sub(rf"\${name}", value, sql, flags=re.IGNORECASE)
+    # the parts of a statement that cannot contain variable references (string literals, quoted identifiers,
+    # dollar-quoted strings, comments), or a $reference
+    _TOKENS = re.compile(
+        r"""
+        '(?:[^'\\]|\\.|'')*'      # single-quoted string, with '' and backslash escapes
+        | "(?:[^"]|"")*"           # quoted identifier
+        | \$\$.*?\$\$              # dollar-quoted string
+        | --[^\n]*                 # line comment
+        | /\*.*?\*/                # block comment
+        | \$(\w+)                  # variable reference
+        """,
+        re.DOTALL | re.VERBOSE,
+    )
 
-        if remaining_variables := re.search(r"(?<!\$)\$\w+", sql):
+    def inline_variables(self, sql: str) -> str:
+        def replace(match: re.Match) -> str:
+            name = match.group(1)
+            if name is None or name.isdigit():
+                # not a reference, or a positional column reference like $1
+                return match.group(0)
+            for var_name, value in self._variables.items():
+                if var_name.upper() == name.upper():
+                    return value
             raise snowflake.connector.errors.ProgrammingError(
-                msg=f"Session variable '{remaining_variables.group().upper()}' does not exist"
+                msg=f"Session variable '${name.upper()}' does not exist"
             )
-        return sql
+
+        return self._TOKENS.sub(replace, sql)
